@@ -423,6 +423,7 @@ class Reaction:
     def __add__(self, rxn):
         if rxn == 0 or rxn is None or not rxn.has_reaction(): return self.copy()
         rxn = self._math_compatible_reaction(rxn)
+        if not self.has_reaction(): return rxn
         stoichiometry = self._stoichiometry * self.X + rxn._stoichiometry * rxn.X
         rxn._stoichiometry = stoichiometry / -(stoichiometry[rxn._reactant_index])
         rxn.X = self.X + rxn.X
@@ -431,6 +432,10 @@ class Reaction:
     def __iadd__(self, rxn):
         if rxn == 0 or rxn is None or not rxn.has_reaction(): return self
         rxn = self._math_compatible_reaction(rxn, copy=False)
+        if not self.has_reaction():
+            self._stoichiometry = rxn._stoichiometry.copy()
+            self.X = rxn.X
+            return self
         stoichiometry = self._stoichiometry * self.X + rxn._stoichiometry * rxn.X
         self._stoichiometry = stoichiometry / -(stoichiometry[self._reactant_index])
         self.X = self.X + rxn.X
@@ -462,6 +467,9 @@ class Reaction:
     def __sub__(self, rxn):
         if rxn == 0 or rxn is None or not rxn.has_reaction(): return self.copy()
         rxn = self._math_compatible_reaction(rxn)
+        if not self.has_reaction(): 
+            rxn.X = -rxn.X
+            return rxn
         stoichiometry = self._stoichiometry*self.X - rxn._stoichiometry*rxn.X
         rxn._stoichiometry = stoichiometry/-(stoichiometry[rxn._reactant_index])
         rxn.X = self.X - rxn.X
@@ -470,6 +478,10 @@ class Reaction:
     def __isub__(self, rxn):
         if rxn == 0 or rxn is None or not rxn.has_reaction(): return self
         rxn = self._math_compatible_reaction(rxn, copy=False)
+        if not self.has_reaction():
+            self._stoichiometry = rxn._stoichiometry.copy()
+            self.X = -rxn.X
+            return self
         stoichiometry = self._stoichiometry*self.X - rxn._stoichiometry*rxn.X
         self._stoichiometry = stoichiometry/-(stoichiometry[self._reactant_index])
         self.X = self.X - rxn.X
